@@ -183,6 +183,13 @@ impl MatcherIO<'_> {
         self.quit
     }
 
+    /// Write out what the earlier actions of this run have printed, so that a
+    /// command about to be started finds (and extends) the output in order.
+    pub fn flush_output(&mut self) {
+        // A failing flush shows up again at the next write to the output.
+        let _ = self.deps.get_output().borrow_mut().flush();
+    }
+
     #[must_use]
     pub fn now(&self) -> SystemTime {
         self.deps.now()
